@@ -288,6 +288,7 @@ func Run(sc *uw.Scenario) *simkit.Outcome {
 				}
 			}
 		}
+		storedBefore := storedBytes(realDst)
 		_, dstErr := os.Lstat(strings.TrimRight(dst, "/"))
 		dstAbsent := dstErr != nil
 		before := simkit.Snapshot(excl...)
@@ -363,6 +364,11 @@ func Run(sc *uw.Scenario) *simkit.Outcome {
 		}
 		if rd.Reads > 2*len(rd.Data)+64 {
 			out.Violate("C19", "unpack-steps", "steps", fmt.Sprintf("Unpack made %d Read calls for %d bytes", rd.Reads, len(rd.Data)))
+		}
+
+		// what was stored is bounded by what was read: DEFLATE expands at most 1032 times
+		if w := storedBytes(realDst) - storedBefore; w > 1100*int64(len(gz))+1<<20 {
+			out.Violate("C19", "unpack-amplification", "stored-bytes", fmt.Sprintf("archive %d: Unpack stored %d bytes for a stream of %d bytes (err=%v)", ai, w, len(gz), uerr))
 		}
 
 		// ---- C01: nothing outside dst changed, whatever Unpack returned ----
@@ -841,4 +847,22 @@ func parentTimesOnly(d, parent string) bool {
 	}
 	halves := strings.SplitN(d[len(pre)-2:], " -> ", 2)
 	return len(halves) == 2 && snapTimes.ReplaceAllString(halves[0], "") == snapTimes.ReplaceAllString(halves[1], "")
+}
+
+// storedBytes is the amount of file content stored below root: for every
+// regular file its size, or what is allocated for it when that is less (holes).
+func storedBytes(root string) int64 {
+	var n int64
+	filepath.Walk(root, func(p string, info os.FileInfo, err error) error {
+		if err != nil || !info.Mode().IsRegular() {
+			return nil
+		}
+		sz := info.Size()
+		if st, ok := info.Sys().(*syscall.Stat_t); ok && st.Blocks*512 < sz {
+			sz = st.Blocks * 512
+		}
+		n += sz
+		return nil
+	})
+	return n
 }
